@@ -394,6 +394,10 @@ func (w *World) cellsAddr(fr *frame, pos token.Pos, cells []value, idx value, T 
 	if len(cells) > symIndexMax {
 		return &cells[w.concretize(t, symIndexMax)]
 	}
+	if len(cells) <= w.h.ConcIndexMax {
+		// check knob "concretize_index_max": fork over the index instead of building a mux term
+		return &cells[w.concretize(t, len(cells)+1)]
+	}
 	// narrow candidates to a small index width when possible
 	ps := make([]*value, len(cells))
 	for k := range cells {
